@@ -8,12 +8,15 @@ Cases:
     ad <0|1> <user> <pass> <tail> T st <stream> ch <n> <size>*n  SocksAdapter.handleHandshake + handleRequest
     udp T d <datagram>                                           parseUDPHeader, then build + parse again
     ubp T h <host> p <port> pl <payload>                         buildUDPHeader, then parseUDPHeader
+    conn|live <tail> cfg <mapping> <target> <secret> <hasTunnel> <tunnelOk> <hasRelay> <relayOk> <bindIP> <bindPort> T st <stream> ch <n> <size>*n
+                                                                 Listener.handleConnection with creator doubles (live: via Manager + TCP)
     relay <paced|burst|gated> T ds <n> <datagram>*n              real UDPRelay (readLoop + handlePacket goroutines) -> tunnel doubles
 Observations (same for implementation and model):
     hs:  ok <cmd> <host> <port> w <written> left <n>   |  err <stage> w <written> left <n>
     ad:  ok <target> w <written> left <n>              |  err <stage> w <written> left <n>
     udp: err <stage>  |  ok <host> <port> <payload> rb <rebuilt> (ok <host> <port> <payload> | err <stage>)
     ubp: b <built> (ok <host> <port> <payload> | err <stage>)
+    conn/live: ev <k> (tunnel <mapping> <target> <host> <port> <secret> <data> | relay <mapping> <target> <secret>)*k w <written> closed <0|1>
     relay: fw <m> (<host> <port> <payload>)*m       every SendPacket (tunnel destination, bytes), sorted as text
 -/
 namespace Tunnox.Drv.C20
@@ -230,6 +233,47 @@ def parseUbpObs : List String → Option BObs
     if ts.isEmpty then pure ⟨b, p⟩ else none
   | _ => none
 
+/-! ### conn / live -/
+
+def b01 (s : String) : Bool := s == "1"
+
+def parseConnCase : List String → Option (ConnCfg × StreamCase)
+  | tl :: "cfg" :: m :: t :: sk :: ht :: tok :: hr :: rok :: bip :: bp :: ts => do
+    let cfg : ConnCfg := ⟨← bytesOfHex m, ← t.toNat?, ← bytesOfHex sk, b01 ht, b01 tok, b01 hr, b01 rok,
+      ← bytesOfHex bip, ← bp.toNat?⟩
+    let sc ← parseHsCase (tl :: ts)
+    pure (cfg, sc)
+  | _ => none
+
+def connEvStr : ConnEv → String
+  | .tunnel m t h p sk d => s!" tunnel {hexOfBytes m} {t} {hexOfBytes h} {p} {hexOfBytes sk} {hexOfBytes d}"
+  | .relay m t sk => s!" relay {hexOfBytes m} {t} {hexOfBytes sk}"
+
+def connObsStr (o : ConnObs) : String :=
+  o.events.foldl (fun acc e => acc ++ connEvStr e) s!"ev {o.events.length}" ++
+    s!" w {hexOfBytes o.written} closed {if o.closed then 1 else 0}"
+
+def parseConnEvs : Nat → List String → Option (List ConnEv × List String)
+  | 0, ts => some ([], ts)
+  | n + 1, "tunnel" :: m :: t :: h :: p :: sk :: d :: ts => do
+    let (r, ts') ← parseConnEvs n ts
+    pure (.tunnel (← bytesOfHex m) (← t.toNat?) (← bytesOfHex h) (← p.toNat?) (← bytesOfHex sk) (← bytesOfHex d) :: r, ts')
+  | n + 1, "relay" :: m :: t :: sk :: ts => do
+    let (r, ts') ← parseConnEvs n ts
+    pure (.relay (← bytesOfHex m) (← t.toNat?) (← bytesOfHex sk) :: r, ts')
+  | _, _ => none
+
+def parseConnObs : List String → Option ConnObs
+  | "ev" :: k :: ts => do
+    let (evs, ts) ← parseConnEvs (← k.toNat?) ts
+    match ts with
+    | "w" :: w :: "closed" :: cl :: [] => pure ⟨evs, ← bytesOfHex w, b01 cl⟩
+    | _ => none
+  | _ => none
+
+def modelConn (cfg : ConnCfg) (c : StreamCase) : String :=
+  connObsStr (handleConnection c.ip cfg ⟨chunkBy c.chunks c.stream, c.tail⟩)
+
 /-! ### relay -/
 
 structure RelayCase where
@@ -305,6 +349,14 @@ def runModel (ts : List String) : String :=
     match parseUbpCase rest with
     | some c => let o := modelUbp c; s!"b {hexOfBytes o.built} {uOutStr o.parsed}"
     | none => "bad-case"
+  | "conn" :: rest =>
+    match parseConnCase rest with
+    | some (cfg, c) => modelConn cfg c
+    | none => "bad-case"
+  | "live" :: rest =>
+    match parseConnCase rest with
+    | some (cfg, c) => modelConn cfg c
+    | none => "bad-case"
   | "relay" :: rest =>
     match parseRelayCase rest with
     | some c => modelRelay c
@@ -334,6 +386,16 @@ def runHolds (caseToks obsToks : List String) : String :=
   | "ubp" :: rest =>
     match parseUbpCase rest, parseUbpObs obsToks with
     | some c, some o => boolStr (holdsBuild c.ip c.host c.port c.payload o)
+    | some _, none => "false"
+    | none, _ => "bad-case"
+  | "conn" :: rest =>
+    match parseConnCase rest, parseConnObs obsToks with
+    | some (cfg, c), some o => boolStr (holdsConn c.ip cfg c.stream o)
+    | some _, none => "false"
+    | none, _ => "bad-case"
+  | "live" :: rest =>
+    match parseConnCase rest, parseConnObs obsToks with
+    | some (cfg, c), some o => boolStr (holdsConn c.ip cfg c.stream o)
     | some _, none => "false"
     | none, _ => "bad-case"
   | "relay" :: rest =>
